@@ -261,7 +261,12 @@ impl StateMachine<'_> {
                 &mut self.painter,
                 &mut self.mode_info,
                 self.config,
-            )
+            )?;
+            // That was the header of this file section: it must not be written again when the
+            // next section starts.
+            self.handled_diff_header_header_line_file_pair
+                .clone_from(&self.current_file_pair);
+            Ok(())
         } else if !self.config.color_only
             && self.should_handle_file_header()
             && self.handled_diff_header_header_line_file_pair != self.current_file_pair
